@@ -26,7 +26,8 @@ class NetlistSimplifyMixin:
         if explain:
             print(string % subset)
 
-        subset_list = list(subset)
+        # Sort for a result that does not depend on the hash seed.
+        subset_list = sorted(subset)
         name = subset_list[0]
         elt = self.elements[name]
         signs = self._combine_signs(name, subset_list, series)
